@@ -464,7 +464,7 @@ fn accept_case(seed: u64, rep: &mut Report) {
     );
 }
 
-fn content_type_case(seed: u64, rep: &mut Report) {
+pub fn content_type_case(seed: u64, rep: &mut Report) {
     let mut rng = Rng::new(seed);
     let r = &mut rng;
     let regs = gen_regs(r);
